@@ -86,6 +86,56 @@ pub fn shapes() -> Vec<Shape> {
     ]
 }
 
+/// Endless descent where every level builds a fresh value (`local o(n) = BODY(o(n + 1))`): each
+/// way a body can need the next level, times each way the first level is used. Every one
+/// must be stopped (stack overflow / infinite recursion) or finish; none may run forever.
+pub fn endless_descents() -> Vec<(String, String)> {
+    let bodies: Vec<(&str, &str)> = vec![
+        ("object-assert-message-object", "{ assert false : R, x: 1 }"),
+        ("object-assert-message-array", "{ assert false : [R], x: 1 }"),
+        ("object-assert-message-in-object", "{ assert false : {m: R}, x: 1 }"),
+        ("object-assert-message-format", "{ assert false : \"%s\" % [R], x: 1 }"),
+        ("object-assert-message-concat", "{ assert false : \"\" + R, x: 1 }"),
+        ("object-assert-condition-field", "{ assert R.x == 1, x: 1 }"),
+        ("object-assert-condition-equals", "{ assert R == R, x: 1 }"),
+        ("error-message-object", "{ x: error R }"),
+        ("error-message-in-object", "{ x: error {m: R} }"),
+        ("field-of-next", "{ x: R.x }"),
+        ("next-as-field-value", "{ x: 1, y: R }"),
+        ("computed-field-name", "{ [std.toString(R)]: 1, x: 1 }"),
+        ("string-concat", "{ x: \"\" + R }"),
+        ("format", "{ x: \"%s\" % [R] }"),
+        ("toString", "{ x: std.toString(R) }"),
+        ("equals", "{ x: R == R }"),
+        ("array-element", "{ x: [R][0].x }"),
+        ("extension-right", "{ x: 1 } + R"),
+        ("extension-left", "R { x: 1 }"),
+        ("default-argument", "{ x: (function(d=R) d.x)() }"),
+        ("comprehension-source", "{ x: [y.x for y in [R]][0] }"),
+        ("if-condition", "{ x: if R.x == 1 then 1 else 2 }"),
+        ("object-local", "{ local l = R, x: l.x }"),
+        ("manifestJson", "{ x: std.manifestJson(R) }"),
+        ("manifestYamlDoc", "{ x: std.manifestYamlDoc(R) }"),
+        ("manifestPython", "{ x: std.manifestPython(R) }"),
+        ("manifestTomlEx", "{ x: std.manifestTomlEx(R, \"\") }"),
+        ("prune", "{ x: std.prune(R).x }"),
+        ("mergePatch", "{ x: std.mergePatch(R, {}).x }"),
+        ("objectValues", "{ x: std.objectValues(R)[0] }"),
+        ("mapWithKey", "{ x: std.mapWithKey(function(k, v) v, R).x }"),
+        ("trace-message", "{ x: std.trace(R, 1) }"),
+        ("sort-key", "{ x: std.sort([R, R], function(v) v.x)[0].x }"),
+        ("in-super", "{ x: 1 } + { y: \"x\" in super, z: R.y }"),
+    ];
+    let entries = [("field", "o(0).x"), ("manifest", "o(0)"), ("toString", "std.toString(o(0))")];
+    let mut v = Vec::new();
+    for (bn, b) in &bodies {
+        for (en, e) in &entries {
+            v.push((format!("{bn}/{en}"), format!("local o(n) = {}; {e}", b.replace('R', "o(n + 1)"))));
+        }
+    }
+    v
+}
+
 #[derive(Clone, Debug, PartialEq)]
 enum O {
     Value(String),
@@ -302,9 +352,32 @@ pub fn self_containing() -> Vec<(&'static str, String)> {
         ("reverse", "std.reverse(a)", "std.reverse([a])"),
         ("slice", "a[0:2]", "[a][0:1]"),
     ];
+    // the same calls on self-containing values whose leaves are strings (builtins that accept
+    // only strings stop at the first number otherwise) and on a JsonML-shaped one
+    let sarr = "local a = [\"s\", a]; ";
+    let sobj = "local a = {x: a, y: \"s\"}; ";
+    let jsonml = "local a = [\"t\", {k: \"v\"}, a]; ";
     for (name, on_arr, on_obj) in calls {
         v.push((name, format!("{arr}{on_arr}")));
         v.push((name, format!("{obj}{on_obj}")));
+        v.push((name, format!("{sarr}{on_arr}")));
+        v.push((name, format!("{sobj}{on_obj}")));
+    }
+    for (name, call) in [
+        ("deepJoin", "std.deepJoin(a)"),
+        ("lines", "std.lines(a)"),
+        ("join", "std.join(\"\", a)"),
+        ("manifestXmlJsonml", "std.manifestXmlJsonml(a)"),
+        ("flattenDeepArray", "std.flattenDeepArray(a)"),
+        ("format-s", "\"%s|%s\" % a"),
+        ("sum", "std.sum(a)"),
+        ("stringChars", "std.stringChars(a)"),
+        ("escapeStringBash", "std.escapeStringBash(a)"),
+        ("manifestYamlStream", "std.manifestYamlStream(a)"),
+        ("manifestIni", "std.manifestIni({sections: {s: {k: a}}})"),
+    ] {
+        v.push((name, format!("{sarr}{call}")));
+        v.push((name, format!("{jsonml}{call}")));
     }
     v
 }
@@ -401,6 +474,29 @@ pub fn run(ctx: &Ctx) -> i32 {
             }
         }
     }
+    total.merge(r);
+    // endless descents through fresh values, one process each (a hang is the violation)
+    let ed = endless_descents();
+    let mut r = util::par_forked(&icfg, ed.len(), |sh| {
+        let mut rep = Report::new();
+        let (name, src) = &ed[sh.index];
+        if !sh.begin_case(0, &|| format!("{name}: {src}")) {
+            return rep;
+        }
+        rep.evaluations += 1;
+        rep.states += 1;
+        rep.traces_validated += 1;
+        let o = run_small_stack(src.clone(), 200, 1024);
+        rep.outcome(match &o { O::Value(_) => "descent:value", O::StackOverflow => "descent:stack-overflow", O::InfiniteRecursion => "descent:infinite-recursion", O::Other(_) => "descent:other-error" });
+        rep.distinct(&(name.split('/').next().unwrap_or("").to_string(), std::mem::discriminant(&o)));
+        rep
+    });
+    for v in r.violations.iter_mut() {
+        if let Some(sidx) = v.case["shard"].as_u64() {
+            v.signature = format!("C10/never-stopped/descent-through-{}", ed[sidx as usize].0.split('/').next().unwrap_or(""));
+        }
+    }
+    total.extra.insert("endless_descent_probes".into(), json!(ed.len()));
     total.merge(r);
     // `tailstrict` on a call that is NOT in tail position only forces the arguments: the frame
     // threshold must be the one of the same program without the annotation
